@@ -19,115 +19,114 @@ theorem conforms_false_of (t : Ty) (nul : Bool) (v : TL) (hn : v ≠ .null) (h :
     conforms t false v = true := by
   cases v <;> first | exact absurd rfl hn | (unfold conforms at h ⊢; exact h)
 
-/-- What is assembled into a bare nilable type is not nil - except an empty list into a slice (the list assembler
-    only appends): known finding `C19/nilable-slot-empty-list-becomes-absent`. -/
+/-- what is assembled into a bare nilable type is not nil (a list that has been begun is a non-nil slice) -/
 theorem assignC_bare_ne {g : GoTy} {t : Ty} {v : TL} {a : GoVal} (hb : isBare g = true)
-    (hc : compatible g t false = true) (ha : assignC g t false v = some a) (hn : bareNil g = some a) :
-    emptyIntoSlice g v = true := by
-  cases g <;> simp [isBare, bareNil] at hb hn
+    (hc : compatible g t false = true) (ha : assignC g t false v = some a) : a ≠ .nilBare ∧ a ≠ .nilSlice := by
+  cases g <;> simp [isBare] at hb
   · -- []byte
-    subst hn
     cases t <;> simp [compatible] at hc
-    cases v <;> simp [assignC, unptr, wrapFor] at ha
+    cases v <;> simp [assignC, unptr, wrapFor, isBare] at ha
+    subst ha; simp
   · -- datamodel.Link
     rename_i lf
-    cases lf <;> simp at hn hb
-    subst hn
+    cases lf <;> simp at hb
     cases t <;> simp [compatible] at hc
-    cases v <;> simp [assignC, unptr, wrapFor] at ha
+    cases v <;> simp [assignC, unptr, wrapFor, isBare] at ha
+    subst ha; simp
   · -- datamodel.Node
-    subst hn
     cases t <;> simp [compatible] at hc
-    cases v <;> simp [assignC, unptr, wrapFor] at ha
+    cases v <;> simp [assignC, unptr, wrapFor, isBare] at ha <;> (try (obtain ⟨_, _, rfl⟩ := ha)) <;>
+      (try subst ha) <;> simp
   · -- a slice
-    subst hn
     cases t <;> simp [compatible] at hc
-    cases v <;> simp [assignC, unptr, wrapFor] at ha
-    obtain ⟨ys, hys, hs⟩ := ha
-    cases ys with
-    | nil => simp [emptyIntoSlice, assignList_nil _ hys]
-    | cons _ _ => simp [sliceOf] at hs
+    cases v <;> simp [assignC, unptr, wrapFor, isBare] at ha
+    obtain ⟨ys, _, rfl⟩ := ha
+    simp
 
 mutual
 theorem assignC_view : (v : TL) → (g : GoTy) → (t : Ty) → (nul : Bool) → (gv : GoVal) → t.wf = true →
-    compatible g t nul = true → conforms t nul v = true → nilableSlotEmptyList g t nul v = false →
+    compatible g t nul = true → conforms t nul v = true →
     assignC g t nul v = some gv → ∀ w, view g t nul gv = some w → w = v
-  | .absent, g, t, nul, gv, _, _, _, _, ha, w, hw => by simp [assignC] at ha
-  | .null, g, t, nul, gv, _, _, _, _, ha, w, hw => by
+  | .absent, g, t, nul, gv, _, _, _, ha, w, hw => by simp [assignC] at ha
+  | .null, g, t, nul, gv, _, _, _, ha, w, hw => by
     cases nul <;> simp [assignC] at ha
-    cases g <;> simp at ha
-    subst ha
-    simp [view] at hw
-    exact hw.symm
-  | .bool b, g, t, nul, gv, _, _, _, _, ha, w, hw => by
+    by_cases hp : ∃ g1, g = .ptr g1
+    · obtain ⟨g1, rfl⟩ := hp
+      simp at ha
+      subst ha
+      simp [view] at hw
+      exact hw.symm
+    · have ha' : (if isBare g = true then some GoVal.nilBare else none) = some gv := by
+        cases g <;> first | exact ha | exact absurd ⟨_, rfl⟩ hp
+      by_cases hb : isBare g = true
+      · simp only [hb, if_true, Option.some.injEq] at ha'
+        subst ha'
+        simp [view, hb] at hw
+        exact hw.symm
+      · simp [hb] at ha'
+  | .bool b, g, t, nul, gv, _, _, _, ha, w, hw => by
     unfold assignC at ha
     cases hu : unptr nul g with
     | none => simp [hu] at ha
     | some g0 =>
       simp only [hu, Option.map_eq_some_iff] at ha
       obtain ⟨a0, ha, rfl⟩ := ha
-      rw [view_wrapFor _ _ hu] at hw
       cases t <;> cases g0 <;> simp at ha
-      all_goals (subst ha; simp [view] at hw; exact hw.symm)
-  | .float b, g, t, nul, gv, _, _, _, _, ha, w, hw => by
+      all_goals (subst ha; rw [view_wrapFor _ _ hu (by simp) (by simp)] at hw; simp [view] at hw; exact hw.symm)
+  | .float b, g, t, nul, gv, _, _, _, ha, w, hw => by
     unfold assignC at ha
     cases hu : unptr nul g with
     | none => simp [hu] at ha
     | some g0 =>
       simp only [hu, Option.map_eq_some_iff] at ha
       obtain ⟨a0, ha, rfl⟩ := ha
-      rw [view_wrapFor _ _ hu] at hw
       cases t <;> cases g0 <;> simp at ha
-      all_goals (subst ha; simp [view] at hw; exact hw.symm)
-  | .bytes b, g, t, nul, gv, _, _, _, _, ha, w, hw => by
+      all_goals (subst ha; rw [view_wrapFor _ _ hu (by simp) (by simp)] at hw; simp [view] at hw; exact hw.symm)
+  | .bytes b, g, t, nul, gv, _, _, _, ha, w, hw => by
     unfold assignC at ha
     cases hu : unptr nul g with
     | none => simp [hu] at ha
     | some g0 =>
       simp only [hu, Option.map_eq_some_iff] at ha
       obtain ⟨a0, ha, rfl⟩ := ha
-      rw [view_wrapFor _ _ hu] at hw
       cases t <;> cases g0 <;> simp at ha
-      all_goals (subst ha; simp [view] at hw; exact hw.symm)
-  | .link b, g, t, nul, gv, _, _, _, _, ha, w, hw => by
+      all_goals (subst ha; rw [view_wrapFor _ _ hu (by simp) (by simp)] at hw; simp [view] at hw; exact hw.symm)
+  | .link b, g, t, nul, gv, _, _, _, ha, w, hw => by
     unfold assignC at ha
     cases hu : unptr nul g with
     | none => simp [hu] at ha
     | some g0 =>
       simp only [hu, Option.map_eq_some_iff] at ha
       obtain ⟨a0, ha, rfl⟩ := ha
-      rw [view_wrapFor _ _ hu] at hw
       cases t <;> cases g0 <;> simp at ha
-      all_goals (subst ha; simp [view] at hw; exact hw.symm)
-  | .int i, g, t, nul, gv, _, _, _, _, ha, w, hw => by
+      all_goals (subst ha; rw [view_wrapFor _ _ hu (by simp) (by simp)] at hw; simp [view] at hw; exact hw.symm)
+  | .int i, g, t, nul, gv, _, _, _, ha, w, hw => by
     unfold assignC at ha
     cases hu : unptr nul g with
     | none => simp [hu] at ha
     | some g0 =>
       simp only [hu, Option.map_eq_some_iff] at ha
       obtain ⟨a0, ha, rfl⟩ := ha
-      rw [view_wrapFor _ _ hu] at hw
       cases t <;> cases g0 <;> simp at ha
       · obtain ⟨_, ha⟩ := ha
-        subst ha; simp [view] at hw
+        subst ha; rw [view_wrapFor _ _ hu (by simp) (by simp)] at hw; simp [view] at hw
         exact hw.symm
-      · subst ha; simp [view] at hw
+      · subst ha; rw [view_wrapFor _ _ hu (by simp) (by simp)] at hw; simp [view] at hw
         exact hw.symm
-  | .str s, g, t, nul, gv, hwf, _, hcf, _, ha, w, hw => by
+  | .str s, g, t, nul, gv, hwf, _, hcf, ha, w, hw => by
     unfold assignC at ha
     cases hu : unptr nul g with
     | none => simp [hu] at ha
     | some g0 =>
       simp only [hu, Option.map_eq_some_iff] at ha
       obtain ⟨a0, ha, rfl⟩ := ha
-      rw [view_wrapFor _ _ hu] at hw
       cases t with
       | str =>
         cases g0 <;> simp at ha
-        subst ha; simp [view] at hw; exact hw.symm
+        subst ha; rw [view_wrapFor _ _ hu (by simp) (by simp)] at hw; simp [view] at hw; exact hw.symm
       | any =>
         cases g0 <;> simp at ha
-        subst ha; simp [view] at hw; exact hw.symm
+        subst ha; rw [view_wrapFor _ _ hu (by simp) (by simp)] at hw; simp [view] at hw; exact hw.symm
       | enum ms r =>
         cases g0 <;> simp at ha
         · -- a Go integer
@@ -138,66 +137,58 @@ theorem assignC_view : (v : TL) → (g : GoTy) → (t : Ty) → (nul : Bool) →
           | some m =>
             simp only [hm, Option.map_eq_some_iff] at ha
             obtain ⟨i, hi, rfl⟩ := ha
+            rw [view_wrapFor _ _ hu (by simp) (by simp)] at hw
             obtain ⟨hmem, hname⟩ := find?_mem_key (·.name) ms s m hm
             obtain ⟨rfl, _⟩ := (enumStore_eq_some k m.rint i).1 hi
             have hfind := find?_key_of_mem (·.rint) ms (wf_enum_int hwf) m hmem
             simp only [view, Bool.false_eq_true, if_false, hfind, Option.map_some, Option.some.injEq] at hw
             rw [← hw, hname]
         · obtain ⟨_, ha⟩ := ha
-          subst ha; simp [view] at hw; exact hw.symm
+          subst ha; rw [view_wrapFor _ _ hu (by simp) (by simp)] at hw; simp [view] at hw; exact hw.symm
       | _ => cases g0 <;> simp at ha
-  | .list xs, g, t, nul, gv, hwf, hc, hcf, hne, ha, w, hw => by
+  | .list xs, g, t, nul, gv, hwf, hc, hcf, ha, w, hw => by
     unfold assignC at ha
     cases hu : unptr nul g with
     | none => simp [hu] at ha
     | some g0 =>
       simp only [hu, Option.map_eq_some_iff] at ha
       obtain ⟨a0, ha, rfl⟩ := ha
-      rw [view_wrapFor _ _ hu] at hw
       replace hc := compatible_of_unptr t hu hc
-      unfold nilableSlotEmptyList at hne
-      simp only [hu] at hne
       cases t with
       | list et enul =>
         cases g0 <;> simp at ha
         rename_i ge
         obtain ⟨ys, hys, rfl⟩ := ha
+        rw [view_wrapFor _ _ hu (by simp) (by simp)] at hw
         have hwf' : et.wf = true := by simpa [Ty.wf] using hwf
         have hc' : compatible ge et enul = true := by simpa [compatible] using hc
         have hcf' : conformsList et enul xs = true := by
           cases nul <;> (unfold conforms at hcf; exact hcf)
-        cases ys with
-        | nil =>
-          have := assignList_nil xs hys
-          subst this
-          simp [view, sliceOf] at hw; exact hw.symm
-        | cons y ys =>
-          simp only [sliceOf, view, Bool.false_eq_true, if_false, Option.map_eq_some_iff] at hw
-          obtain ⟨ws, hws, rfl⟩ := hw
-          rw [assignList_view xs ge et enul _ hwf' hc' hcf' hne hys ws hws]
+        simp only [view, Bool.false_and, Bool.false_eq_true, if_false, Option.map_eq_some_iff] at hw
+        obtain ⟨ws, hws, rfl⟩ := hw
+        rw [assignList_view xs ge et enul _ hwf' hc' hcf' hys ws hws]
       | any =>
         cases g0 <;> simp at ha
         obtain ⟨d, hd, rfl⟩ := ha
+        rw [view_wrapFor _ _ hu (by simp) (by simp)] at hw
         simp [view] at hw
         rw [← hw]
         exact ofDM_of_toDM _ _ hd
       | _ => cases g0 <;> simp at ha
-  | .map es, g, t, nul, gv, hwf, hc, hcf, hne, ha, w, hw => by
+  | .map es, g, t, nul, gv, hwf, hc, hcf, ha, w, hw => by
     unfold assignC at ha
     cases hu : unptr nul g with
     | none => simp [hu] at ha
     | some g0 =>
       simp only [hu, Option.map_eq_some_iff] at ha
       obtain ⟨a0, ha, rfl⟩ := ha
-      rw [view_wrapFor _ _ hu] at hw
       replace hc := compatible_of_unptr t hu hc
-      unfold nilableSlotEmptyList at hne
-      simp only [hu] at hne
       cases t with
       | map vt vnul =>
         cases g0 <;> simp at ha
         rename_i gv0
         obtain ⟨kvs, hkvs, rfl⟩ := ha
+        rw [view_wrapFor _ _ hu (by simp) (by simp)] at hw
         have hwf' : vt.wf = true := by simpa [Ty.wf] using hwf
         have hc' : compatible gv0 vt vnul = true := by simpa [compatible] using hc
         have hcf' : conformsMap vt vnul [] es = true := by
@@ -206,7 +197,7 @@ theorem assignC_view : (v : TL) → (g : GoTy) → (t : Ty) → (nul : Bool) →
         cases h3 : viewKVs gv0 vt vnul kvs with
         | none => simp [h3] at hw
         | some tvs =>
-          have := assignKVs_view es gv0 vt vnul kvs hwf' hc' [] hcf' hne hkvs tvs h3
+          have := assignKVs_view es gv0 vt vnul kvs hwf' hc' [] hcf' hkvs tvs h3
           subst this
           simp only [h3, keysOf_getD, lookupAll_self' _ (conformsMap_nodup vt vnul es [] hcf').1, Option.map_some,
             Option.some.injEq, TLKVs.ofList_toList] at hw
@@ -215,6 +206,7 @@ theorem assignC_view : (v : TL) → (g : GoTy) → (t : Ty) → (nul : Bool) →
         cases g0 <;> simp at ha
         rename_i gfs
         obtain ⟨vs, hvs, rfl⟩ := ha
+        rw [view_wrapFor _ _ hu (by simp) (by simp)] at hw
         have hw3 := wf_struct hwf
         have hc' : compatFields gfs fs.toList = true := by simpa [compatible] using hc
         have hcf' : conformsStruct fs.toList [] es = true := by
@@ -222,91 +214,88 @@ theorem assignC_view : (v : TL) → (g : GoTy) → (t : Ty) → (nul : Bool) →
         simp only [view, Bool.false_eq_true, if_false, Option.map_eq_some_iff] at hw
         obtain ⟨ws, hws, rfl⟩ := hw
         rw [assignFields_view es gfs fs.toList fs.toList vs (fun _ h => h) hw3.2.1 (Fields.wf_mem fs hw3.1)
-          (conformsStruct_vals fs.toList es [] hcf') hc' hne hvs ws hws]
+          (conformsStruct_vals fs.toList es [] hcf') hc' hvs ws hws]
       | union ms ur =>
         cases g0 <;> simp at ha
         rename_i gfs
         have hw3 := wf_union hwf
         have hc' : compatMembers gfs ms.toList = true := by simpa [compatible] using hc
-        match es, hcf, hne, ha with
-        | .cons k v .nil, hcf, hne, ha =>
-          simp only at ha hne
+        match es, hcf, ha with
+        | .cons k v .nil, hcf, ha =>
+          simp only at ha
           cases hfi : findIdx (fun m => m.name == k) ms.toList with
           | none => simp [hfi] at ha
           | some im =>
             obtain ⟨i, m⟩ := im
             obtain ⟨hmi, hmk, hfind⟩ := findIdx_some _ _ i m hfi
             obtain ⟨g1, hg1, hcg1⟩ := compatMembers_get gfs ms.toList hc' i m hmi
-            simp only [hfi, hg1, Option.map_eq_some_iff] at ha hne
+            simp only [hfi, hg1, Option.map_eq_some_iff] at ha
             obtain ⟨a, hasg, rfl⟩ := ha
+            rw [view_wrapFor _ _ hu (by simp) (by simp)] at hw
             simp only [view, Bool.false_eq_true, if_false, viewUnion_unionVals gfs ms.toList i g1 m a hg1 hmi,
               Option.map_eq_some_iff] at hw
             obtain ⟨wa, hwa, rfl⟩ := hw
             have hcv : conforms m.ty false v = true := by
               cases nul <;> (unfold conforms at hcf; simp only [hfind] at hcf; exact hcf)
             have hmem := List.mem_of_getElem? hmi
-            rw [assignC_view v g1 m.ty false a (Members.wf_mem ms hw3.1 m hmem) hcg1 hcv hne hasg wa hwa]
+            rw [assignC_view v g1 m.ty false a (Members.wf_mem ms hw3.1 m hmem) hcg1 hcv hasg wa hwa]
             simp only [beq_iff_eq] at hmk
             rw [hmk]
-        | .nil, _, _, ha => simp at ha
-        | .cons _ _ (.cons _ _ _), _, _, ha => simp at ha
+        | .nil, _, ha => simp at ha
+        | .cons _ _ (.cons _ _ _), _, ha => simp at ha
       | any =>
         cases g0 <;> simp at ha
         obtain ⟨d, hd, rfl⟩ := ha
+        rw [view_wrapFor _ _ hu (by simp) (by simp)] at hw
         simp [view] at hw
         rw [← hw]
         exact ofDM_of_toDM _ _ hd
       | _ => cases g0 <;> simp at ha
 theorem assignList_view : (xs : TLs) → (g : GoTy) → (t : Ty) → (nul : Bool) → (ys : GoVals) → t.wf = true →
-    compatible g t nul = true → conformsList t nul xs = true → nilableSlotEmptyListL g t nul xs = false →
+    compatible g t nul = true → conformsList t nul xs = true →
     assignList g t nul xs = some ys → ∀ ws, viewList g t nul ys = some ws → ws = xs
-  | .nil, g, t, nul, ys, _, _, _, _, ha, ws, hw => by
+  | .nil, g, t, nul, ys, _, _, _, ha, ws, hw => by
     simp [assignList] at ha; subst ha; simp [viewList] at hw; exact hw.symm
-  | .cons x xs, g, t, nul, ys, hwf, hc, hcf, hne, ha, ws, hw => by
+  | .cons x xs, g, t, nul, ys, hwf, hc, hcf, ha, ws, hw => by
     simp only [assignList, zipSome_eq_some] at ha
     simp only [conformsList, Bool.and_eq_true] at hcf
-    simp only [nilableSlotEmptyListL, Bool.or_eq_false_iff] at hne
     obtain ⟨a, r, h1, h2, rfl⟩ := ha
     simp only [viewList, zipSome_eq_some] at hw
     obtain ⟨wa, wr, h3, h4, rfl⟩ := hw
-    rw [assignC_view x g t nul a hwf hc hcf.1 hne.1 h1 wa h3,
-      assignList_view xs g t nul r hwf hc hcf.2 hne.2 h2 wr h4]
+    rw [assignC_view x g t nul a hwf hc hcf.1 h1 wa h3,
+      assignList_view xs g t nul r hwf hc hcf.2 h2 wr h4]
 theorem assignKVs_view : (es : TLKVs) → (g : GoTy) → (t : Ty) → (nul : Bool) → (kvs : GoKVs) → t.wf = true →
     compatible g t nul = true → (seen : List Bytes) → conformsMap t nul seen es = true →
-    nilableSlotEmptyListM g t nul es = false →
     assignKVs g t nul es = some kvs → ∀ tvs, viewKVs g t nul kvs = some tvs → tvs = es.toList
-  | .nil, g, t, nul, ys, _, _, _, _, _, ha, ws, hw => by
+  | .nil, g, t, nul, ys, _, _, _, _, ha, ws, hw => by
     simp [assignKVs] at ha; subst ha; simp [viewKVs] at hw; subst hw; rfl
-  | .cons k x xs, g, t, nul, ys, hwf, hc, seen, hcf, hne, ha, ws, hw => by
+  | .cons k x xs, g, t, nul, ys, hwf, hc, seen, hcf, ha, ws, hw => by
     simp only [assignKVs, zipSome_eq_some] at ha
     obtain ⟨hcx, hcxs⟩ := conformsMap_cons_inv t nul k x xs seen hcf
-    simp only [nilableSlotEmptyListM, Bool.or_eq_false_iff] at hne
     obtain ⟨a, r, h1, h2, rfl⟩ := ha
     simp only [viewKVs, zipSome_eq_some] at hw
     obtain ⟨wa, wr, h3, h4, rfl⟩ := hw
-    rw [assignC_view x g t nul a hwf hc hcx hne.1 h1 wa h3,
-      assignKVs_view xs g t nul r hwf hc (k :: seen) hcxs hne.2 h2 wr h4]
+    rw [assignC_view x g t nul a hwf hc hcx h1 wa h3,
+      assignKVs_view xs g t nul r hwf hc (k :: seen) hcxs h2 wr h4]
     rfl
 theorem assignFields_view : (es : TLKVs) → (gfs : GoFields) → (fs F : List Field) → (vs : GoVals) →
     (∀ f ∈ fs, f ∈ F) → (F.map (·.name)).Nodup → (∀ f ∈ F, f.ty.wf = true) →
     (∀ e ∈ es.toList, ∃ f, F.find? (fun f => f.name == e.1) = some f ∧ fieldValOK f e.2 = true) →
-    compatFields gfs fs = true → nilableSlotEmptyListF gfs fs es = false →
+    compatFields gfs fs = true →
     assignFields gfs fs es = some vs → ∀ ws, viewFields gfs fs vs = some ws → ws = es
-  | .nil, gfs, fs, F, vs, _, _, _, _, _, _, ha, ws, hw => by
+  | .nil, gfs, fs, F, vs, _, _, _, _, _, ha, ws, hw => by
     cases gfs <;> cases fs <;> simp [assignFields] at ha
     subst ha; simp [viewFields] at hw; exact hw.symm
-  | .cons k v es, gfs, fs, F, vs, hsub, hnd, hwfF, hvals, hc, hne, ha, ws, hw => by
+  | .cons k v es, gfs, fs, F, vs, hsub, hnd, hwfF, hvals, hc, ha, ws, hw => by
     cases gfs with
     | nil => cases fs <;> simp [assignFields] at ha
     | cons n g gfs =>
       cases fs with
       | nil => simp [assignFields] at ha
       | cons f fs =>
-        unfold assignFields at ha
+        rw [assignFields_cons] at ha
         rw [compatFields_cons] at hc
-        unfold nilableSlotEmptyListF at hne
         simp only [Bool.and_eq_true] at hc
-        simp only [Bool.or_eq_false_iff] at hne
         by_cases hk : k = f.name
         · subst hk
           simp only [bne_self_eq_false, Bool.false_eq_true, if_false, zipSome_eq_some] at ha
@@ -320,23 +309,23 @@ theorem assignFields_view : (es : TLKVs) → (gfs : GoFields) → (fs F : List F
           simp only [zipSome_eq_some] at hw
           obtain ⟨wa, wr, h3, h4, rfl⟩ := hw
           have ihrest := assignFields_view es gfs fs F r (fun f hf => hsub f (by simp [hf])) hnd hwfF
-              (fun e he => hvals e (by simp [TLKVs.toList, he])) hc.2 hne.2 h2 wr h4
+              (fun e he => hvals e (by simp [TLKVs.toList, he])) hc.2 h2 wr h4
           rw [ihrest]
           have hcF := hc.1.2
-          have hneF := hne.1
           unfold compatField at hcF
+          unfold assignField at h1
           unfold viewField at h3
           simp only at hok
           cases hs : fslot g f'.opt f'.nullable with
           | value =>
-            simp only [hs] at h1 hcF h3 hneF
+            simp only [hs] at h1 hcF h3
             have hva : v ≠ .absent := by intro h; subst h; simp [assignC] at h1
             have hcv : conforms f'.ty f'.nullable v = true := by
               cases v <;> first | exact absurd rfl hva | exact hok
-            rw [assignC_view v g f'.ty f'.nullable a (hwfF f' hfF) hcF hcv hneF h1 wa h3]
+            rw [assignC_view v g f'.ty f'.nullable a (hwfF f' hfF) hcF hcv h1 wa h3]
           | optPtr g1 =>
             obtain ⟨ho, rfl⟩ := fslot_optPtr hs
-            simp only [hs] at h1 hcF h3 hneF
+            simp only [hs, Bool.and_eq_true] at h1 hcF h3
             by_cases hva : v = .absent
             · subst hva
               simp only [if_true, Option.some.injEq] at h1
@@ -348,50 +337,24 @@ theorem assignFields_view : (es : TLKVs) → (gfs : GoFields) → (fs F : List F
               simp only at h3
               have hcv : conforms f'.ty f'.nullable v = true := by
                 cases v <;> first | exact absurd rfl hva | exact hok
-              rw [assignC_view v g1 f'.ty f'.nullable a1 (hwfF f' hfF) hcF hcv hneF h1 wa h3]
+              rw [assignC_view v g1 f'.ty f'.nullable a1 (hwfF f' hfF) hcF.2 hcv h1 wa h3]
           | optBare =>
             obtain ⟨ho, hn, hb⟩ := fslot_optBare hs
-            simp only [hs, Bool.or_eq_false_iff] at h1 hcF h3 hneF
+            simp only [hs] at h1 hcF h3
             by_cases hva : v = .absent
             · subst hva
-              simp only [if_true] at h1
-              simp only [h1, if_true, Option.some.injEq] at h3
+              simp only [if_true, Option.some.injEq] at h1
+              subst h1
+              simp only [if_true, Option.some.injEq] at h3
               rw [← h3]
             · simp only [hva, if_false] at h1
-              have hnb : bareNil g ≠ some a := by
-                intro hb'
-                have := assignC_bare_ne hb hcF h1 hb'
-                rw [this] at hneF
-                exact absurd hneF.1 (by simp)
+              have hnb := (assignC_bare_ne hb hcF h1).1
               simp only [hnb, if_false] at h3
               have hcv : conforms f'.ty false v = true := by
                 have : conforms f'.ty f'.nullable v = true := by
                   cases v <;> first | exact absurd rfl hva | exact hok
                 rwa [hn] at this
-              rw [assignC_view v g f'.ty false a (hwfF f' hfF) hcF hcv hneF.2 h1 wa h3]
-          | nulBare =>
-            obtain ⟨ho, hn, hb⟩ := fslot_nulBare hs
-            simp only [hs, Bool.or_eq_false_iff] at h1 hcF h3 hneF
-            have hva : v ≠ .absent := by
-              intro h; subst h; simp [fieldValOK, ho] at hok
-            have hcv' : conforms f'.ty true v = true := by
-              have : conforms f'.ty f'.nullable v = true := by
-                cases v <;> first | exact absurd rfl hva | exact hok
-              rwa [hn] at this
-            by_cases hvn : v = .null
-            · subst hvn
-              simp only [if_true] at h1
-              simp only [h1, if_true, Option.some.injEq] at h3
-              rw [← h3]
-            · simp only [hvn, if_false] at h1
-              have hnb : bareNil g ≠ some a := by
-                intro hb'
-                have := assignC_bare_ne hb hcF h1 hb'
-                rw [this] at hneF
-                exact absurd hneF.1 (by simp)
-              simp only [hnb, if_false] at h3
-              rw [assignC_view v g f'.ty false a (hwfF f' hfF) hcF (conforms_false_of _ _ _ hvn hcv') hneF.2 h1
-                wa h3]
+              rw [assignC_view v g f'.ty false a (hwfF f' hfF) hcF hcv h1 wa h3]
           | bad => simp [hs] at h1
         · have : (k != f.name) = true := by simpa using hk
           simp [this] at ha
@@ -399,13 +362,12 @@ end
 
 /-- root form, for any conforming typed value -/
 theorem assign_view (g : GoTy) (t : Ty) (tl : TL) (gv : GoVal) (hwf : t.wf = true)
-    (hc : compatible g t false = true) (hne : nilableSlotEmptyList g t false (normalize t tl) = false)
-    (ha : assign g t tl = some gv)
+    (hc : compatible g t false = true) (ha : assign g t tl = some gv)
     (w : TL) (hw : view g t false gv = some w) : w = normalize t tl := by
   unfold assign at ha
   split at ha
   · rename_i hcf
-    exact assignC_view _ g t false gv hwf hc (conforms_normalize tl t false hwf hcf) hne ha w hw
+    exact assignC_view _ g t false gv hwf hc (conforms_normalize tl t false hwf hcf) ha w hw
   · cases ha
 
 end GoBind
